@@ -1143,6 +1143,24 @@ impl TransactionBuilder {
         Ok(())
     }
 
+    /// The fee computed by the change calculation has to cover the transaction as it is once the change outputs carry
+    /// their final amounts and the fee field its final width (a fee fixed with `set_fee` is checked by `build_tx`)
+    fn check_fee_after_change(&self) -> Result<(), JsError> {
+        if let TxBuilderFee::Exactly(_) = &self.fee_request {
+            return Ok(());
+        }
+        if let Some(fee) = &self.fee {
+            let min_fee = min_fee(self)?;
+            if fee < &min_fee {
+                return Err(JsError::from_str(&format!(
+                    "Fee {} is less than the minimum fee {} after adding change",
+                    fee, min_fee
+                )));
+            }
+        }
+        Ok(())
+    }
+
     /// Add explicit output via a TransactionOutput object
     pub fn add_output(&mut self, output: &TransactionOutput) -> Result<(), JsError> {
         let value_size = output.amount.to_bytes().len();
@@ -2211,6 +2229,9 @@ impl TransactionBuilder {
                         // enlarges both the value and the minimum ADA, so the limits of add_output are checked again
                         self.check_output_limits(self.outputs.0.last().unwrap())?;
                     }
+                    // the last change output was priced before it got the rest of the ADA, and the fee field with a
+                    // placeholder: make sure the fee still covers the transaction
+                    self.check_fee_after_change()?;
                     Ok(true)
                 } else {
                     let mut calc = MinOutputAdaCalculator::new_empty(&self.config.utxo_cost())?;
@@ -2276,6 +2297,7 @@ impl TransactionBuilder {
                                         script_ref: script_ref.clone(),
                                         serialization_format: None,
                                     })?;
+                                    self.check_fee_after_change()?;
 
                                     Ok(true)
                                 }
